@@ -3,19 +3,19 @@ A1 = "A1 Verus (Z3) is sound; execution model: unbounded stack, no unwinding thr
 A2 = "A2 std: str::char_indices / CharIndices::{next,clone} model, str range indexing returns the sub-bytes, str::parse::<i64>, Display of str/String, vstd's own specs"
 A3 = "A3 rust_decimal: from_str total and exact (dec_parse); checked_{add,sub,mul,div,rem} = Some(exact) iff representable; ordering and == numeric; normalize/to_string/from_iN as stated in the prelude"
 A4 = "A4 registries frozen during one parse/evaluation; handlers and context functions deterministic functions of their arguments, not touching engine state"
-A5 = "A5 pinned trusted primitives (*Manager::{new,register,get,exist}, Context::{new,set,get,value}, init::init) are one HashMap lookup/insert under a lock"
+A5 = "A5 pinned trusted primitives (*Manager::{new,register}, Context::{new,set}, DescriptorManager::{new,set}, init::init, create_context!) are a OnceCell static / one HashMap insert under a lock; for the verified read primitives only lock() = the current map and HashMap::get = map lookup are assumed (rule 30)"
 A6 = "A6 the textual normalisations of DESIGN.md 3.2 preserve meaning (each application counted in normalisations_applied)"
-A7 = "A7 Tokenizer::next is a deterministic function of (input, cursor, registry): one assumed ensures clause over tk(bytes, off)"
-A8 = "A8 a &str is determined by its characters (a@ == b@ ==> a == b)"
+A7 = "A7 (discharged: lemma_tok_unique proves that the scanner's postcondition and classification determine the token; no assumption remains)"
+A8 = "A8 a &str is determined by its characters and by its bytes (a@ == b@ ==> a == b; a.spec_bytes() == b.spec_bytes() ==> a == b); a one-character ASCII string is that one byte"
 NC_COMPLETE = "completeness: that every sentence of the grammar is accepted (the parser theorem is a soundness theorem)"
 PROPS = {
- 'C01': dict(units=['tp', 'pr', 'lb', 'dd', 'ev', 'ds'], assumptions=[A1, A2, A3, A6, A7],
+ 'C01': dict(units=['tp', 'pr', 'lb', 'dd', 'ev', 'ds'], assumptions=[A1, A2, A3, A6, A8],
     level_text="Unbounded proof (Verus) on the extracted real source: every slice/index/arithmetic/unwrap precondition in tokenizer, parser and printer is discharged and every loop and recursion has a decreasing measure, for all UTF-8 inputs. Stack depth is outside the verifier's model (known finding).",
-    level_note="Assumes A1 A2 A3 A6 A7 (DESIGN.md 4); describe() safety/termination is proved in unit dd (descriptor applications opaque); stack exhaustion is a known finding outside the model.",
+    level_note="Assumes A1 A2 A3 A6 A8 (DESIGN.md 4); describe() safety/termination is proved in unit dd (descriptor applications opaque); stack exhaustion is a known finding outside the model.",
     not_covered=["stack exhaustion (the verifier's model has an unbounded stack; known finding)", "the default_*_descriptor bodies called by describe() (C18: bounded stand-in)", "Decimal::from_str totality (A3)"]),
- 'C02': dict(units=['tp', 'lb', 'hv'], assumptions=[A1, A2, A3, A6, A7, A8, "TP uses axiom_bp (binding powers of a registered infix operator are even >= 2 / odd >= 1); unit LB proves it (lemma_bp) for the real get_precidence under the domain 0 < p <= 10^9"],
+ 'C02': dict(units=['tp', 'lb', 'hv'], assumptions=[A1, A2, A3, A6, A8, "TP uses axiom_bp (binding powers of a registered infix operator are even >= 2 / odd >= 1); unit LB proves it (lemma_bp) for the real get_precidence under the domain 0 < p <= 10^9"],
     level_text="Unbounded proof: every Parser::parse_* function returns Ok only with a ghost derivation witness that chains the tokenizer's tokens from the entry token to the exit token, carries the left/right spine precedence constraints under which the tree is unique, and whose AST is the result (loop invariant of the Pratt loop, all productions, any size).",
-    level_note="Soundness of grouping; uniqueness of the witness and completeness of acceptance are not proved. Assumes A1 A2 A3 A6 A7 A8.",
+    level_note="Soundness of grouping; uniqueness of the witness and completeness of acceptance are not proved. Assumes A1 A2 A3 A6 A8.",
     always_bounded=dict(function='acceptance of well-formed input by parse_expression (completeness clause of the parser theorem)', categories=['parse'],
         why="the parser theorem is a soundness theorem: a change that makes the parser reject (or the tokenizer fail on) a sentence of the grammar violates no contract; completeness needs a functional tokenizer specification and uniqueness of witnesses, which are not within reach",
         bound="fixed + seeded corpus of vx/corpus.py (about 4000 inputs: every ordered pair of operators plain and negated, prefix/postfix/conditional/call/list/map forms, corruptions of valid programs, multi-byte neighbours, random expressions of depth <= 3) against the reference grammar of vx/oracle.py"),
@@ -28,12 +28,12 @@ PROPS = {
     level_text="Unbounded proof: inside every built-in handler each panicking operation has its precondition discharged (checked Decimal ops, shift count in 0..=63, non-empty aggregate) and the postcondition forces Ok(exact) or Err; integer() is Ok(n) exactly for integral in-range numbers.",
     level_note="Panicking Decimal operators have no dischargeable precondition in the model, so any reintroduction fails; A3 for the checked forms.",
     not_covered=["user-registered handlers"]),
- 'C05': dict(units=['tp', 'lb'], assumptions=[A1, A2, A3, A6, A7, A8],
+ 'C05': dict(units=['tp', 'lb'], assumptions=[A1, A2, A3, A6, A8],
     level_text="Unbounded proof (the parser theorem, see C02): an accepted input is exactly a token chain of the documented grammar to EOF - every separator/delimiter/operator token has the required text, nothing dropped, nothing consumed as something else; expect() is Ok only on a match; string/number scanners return Ok only for a terminated string / a valid decimal.",
     always_bounded=dict(function='rejection/acceptance agreement of parse_expression with the documented grammar (completeness clause)', categories=['parse'],
         why="see C02: acceptance of every sentence of the grammar is outside the contracts' reach",
         bound="fixed + seeded corpus of vx/corpus.py (about 4000 inputs: every ordered pair of operators plain and negated, prefix/postfix/conditional/call/list/map forms, corruptions of valid programs, multi-byte neighbours, random expressions of depth <= 3) against the reference grammar of vx/oracle.py"),
-    level_note="Assumes A1 A2 A3 A6 A7 A8.", not_covered=[NC_COMPLETE + ' - bounded stand-in only']),
+    level_note="Assumes A1 A2 A3 A6 A8.", not_covered=[NC_COMPLETE + ' - bounded stand-in only']),
  'C06': dict(units=['ev', 'lb', 'hv'], assumptions=[A1, A4, A5, A6],
     level_text="Unbounded proof: exec_binary's SETTER branch, exec_chain, exec_reference against sem (bind after both sides are evaluated, under the target name, result None, failure = no insertion, non-reference target = Err); Context::set_variable/get_variable against the map view; the ten compound handlers have the same spec function as their plain operator.",
     level_note="Context primitives set/get/value trusted over a map view (A5).", not_covered=["the HashMap behind Context (A5)"]),
@@ -48,10 +48,10 @@ PROPS = {
  'C09': dict(units=['tp', 'hv', 'ev'], assumptions=[A1, A2, A3, A6],
     level_text="Unbounded proof: number_token hands exactly the maximal run to Decimal::from_str and the token carries dec_parse(slice); parse_token/exec_literal pass the Decimal through unchanged; + - * % comparisons and equality (and compound forms) return the checked/ordering result on the operands obtained by decimal() - no float()/integer()/rescale on the path.",
     level_note="Exactness of the decimal operations themselves is A3.", not_covered=["rust_decimal internals (A3)"]),
- 'C10': dict(units=['tp', 'lb'], assumptions=[A1, A2, A3, A6],
-    level_text="Unbounded proof: Tokenizer::next ensures tok_post: only whitespace skipped, span in bounds on char boundaries, cursor at span end, token text = source slice (string payload between equal quotes with no such quote inside, number parses to the carried Decimal); keyword::is_op is the disjunction of the registry predicates.",
-    level_note="Classification rules beyond text/span (longest operator, word operators, function look-ahead) are not all proved.",
-    not_covered=["classification clauses (v) of DESIGN.md C10"]),
+ 'C10': dict(units=['tp', 'lb'], assumptions=[A1, A2, A3, A6, A8],
+    level_text="Unbounded proof: Tokenizer::next ensures tok_post: only whitespace skipped, span in bounds on char boundaries, cursor at span end, token text = source slice (string payload between equal quotes with no such quote inside, number parses to the carried Decimal); keyword::is_op is the disjunction of the registry predicates; tok_class: greedy longest symbolic operator, word operators only as whole words, a name directly followed by `(` is a function name, boolean keywords, digit runs; lemma_tok_unique: these clauses determine the token (the scanner is a function of input, cursor and registry).",
+    level_note="Operator sets are the registry predicates (uninterpreted): the proof holds for every registered operator set.",
+    not_covered=["that the registry predicate reg_opb on bytes is the registry's view (keyword::is_op answers by the text; A8)"]),
  'C12': dict(units=['pr', 'tp'], assumptions=[A1, A2, A3, A6],
     level_text="Unbounded proof: expr(t)@ == render(t) for every AST, render written from the grammar (parenthesisation rules per position, quote choice, separators). That render inverts the parser needs parser completeness (not proved).",
     always_bounded=dict(function='round trip parse -> expr() -> parse through the real parser (that render inverts the parser)', categories=['parse'],
